@@ -540,8 +540,9 @@ def validate(enc, kspec, variant, ret_ty):
 
 
 def worker(job):
-    """job = (kernel index, variant). Returns a picklable result dict."""
-    ki, variant = job
+    """job = (kernel index, variant, chunk, nchunks): chunk c handles the input boxes with index = c mod nchunks;
+    chunk 0 also runs the translator validation and the box-cover check. Returns a picklable result dict."""
+    ki, variant, chunk, nchunks = job
     kspec = G["kernels"][ki]
     tier = G.get("tier", "quick")
     res = {"kernel": kspec.name, "variant": variant, "status": "ok", "obligations": [], "pending": [],
@@ -568,14 +569,15 @@ def worker(job):
         res["status"] = "error"
         res["reason"] = str(e)
         return res
-    res["validation"] = validate(enc0, kspec, variant, ret_ty)
+    res["chunk"] = chunk
+    res["validation"] = validate(enc0, kspec, variant, ret_ty) if chunk == 0 else None
     ins0 = [c for (_, c, _) in enc0.inputs]
     boxes = kspec.boxes(tier)
     res["boxes"] = len(boxes)
     quick_ms = G.get("quick_ms", 1500)
     inproc = G.get("inproc", True)
     # the boxes must cover the precondition
-    if boxes != [None]:
+    if boxes != [None] and chunk == 0:
         sc = z3.Solver()
         sc.set("timeout", 60000)
         for _, c in enc0.defs[:len(ins0)]:
@@ -590,6 +592,8 @@ def worker(job):
         res["obligations"].append({"kind": "cover", "label": "input boxes cover the precondition (%d boxes)" % len(boxes),
                                    "expect": "unsat", "result": str(r), "solver": "z3py-inproc", "secs": 0.0})
     for bi, box in enumerate(boxes):
+        if bi % nchunks != chunk:
+            continue
         blabel = None if box is None or len(boxes) == 1 else "box %d/%d %s" % (bi + 1, len(boxes), json.dumps({str(k): v for k, v in box.items()}))
         try:
             enc = enc0 if box is None else encode_kernel(kspec, variant, bounds=box)
@@ -761,10 +765,18 @@ def make_resolver(vk_all, jix, vix=None):
                     if len(cands) > 1:
                         # `Type::method::{closure#n}`: several types have a method of that name; jiff keeps each
                         # type in the module of the same (lower-case) name
-                        mo = re.search(r"(\w+)::\w+::\{closure#\d+\}$", closure)
+                        mo = re.search(r"(\w+)::\w+::\{closure#\d+\}$", mirenc.strip_generics(closure))
                         if mo:
                             want = mo.group(1).lower()
                             c2 = [c for c in cands if c[0].split("::<impl")[0].split("::")[-1] == want]
+                            if len(c2) != 1:
+                                # the method (parent of the closure) whose receiver is the named type
+                                c2 = []
+                                for c in cands:
+                                    parent = c[0][:c[0].rfind("::{closure#")]
+                                    ps = [q for q in ix.candidates(mm.group(1)) if q[0] == parent]
+                                    if len(ps) == 1 and first_arg_type(ps[0][1]) == mo.group(1):
+                                        c2.append(c)
                             if len(c2) == 1:
                                 cands = c2
                 else:
@@ -936,11 +948,33 @@ def run_property(pid, spec_kernels, modules, tier, seed, timeout_s, scratch_keep
                 i += len(vecs)
         G.update(mir=mir, enums=enums, kernels=kernels, native=native, tier=tier,
                  quick_ms=1500 if tier == "quick" else 3000, inproc=True)
-        joblist = [(i, v) for i, k in enumerate(kernels) for v in k.variants]
+        joblist = []
+        for i, k in enumerate(kernels):
+            nb = len(k.boxes(tier))
+            nch = 1 if nb <= 2 else min(nb, 8)
+            for v in k.variants:
+                joblist += [(i, v, c, nch) for c in range(nch)]
         nproc = jobs or min(16, max(1, len(joblist)))
         ctx = get_context("fork")
         with ctx.Pool(nproc) as pool:
-            results = pool.map(worker, joblist, chunksize=1)
+            parts = pool.map(worker, joblist, chunksize=1)
+        # merge the chunks of one (kernel, variant)
+        results = []
+        bykey = {}
+        for r in parts:
+            key = (r["kernel"], r["variant"])
+            if key not in bykey:
+                bykey[key] = r
+                results.append(r)
+                continue
+            b0 = bykey[key]
+            if r["status"] != "ok" and b0["status"] == "ok":
+                b0["status"], b0["reason"] = r["status"], r.get("reason")
+            b0["obligations"] += r["obligations"]
+            b0["pending"] += r["pending"]
+            b0["notes"] = sorted(set(b0["notes"]) | set(r["notes"]))
+            if b0.get("validation") is None and r.get("validation") is not None:
+                b0["validation"] = r["validation"]
         # ---- portfolio for pending queries
         pend = []
         for r in results:
